@@ -156,6 +156,13 @@ impl Session {
                 }
             }
 
+            // Only downlinks are for us: an uplink frame heard in a receive window
+            // (another device's, or our own one echoed back - its MIC would verify)
+            // is not accepted
+            if encrypted_data.is_uplink() {
+                return Response::NoUpdate;
+            }
+
             #[cfg(feature = "multicast")]
             if let Some(port) = encrypted_data.f_port()
                 && multicast.is_in_range(port)
